@@ -27,6 +27,10 @@ func (pkg *ReturnStatusPackage) ReadFrom(ch BytesChannel) error {
 
 // WriteTo implements the tds.Package interface.
 func (pkg ReturnStatusPackage) WriteTo(ch BytesChannel) error {
+	if err := ch.WriteByte(byte(TDS_RETURNSTATUS)); err != nil {
+		return fmt.Errorf("failed to write TDS Token %s: %w", TDS_RETURNSTATUS, err)
+	}
+
 	return ch.WriteInt32(pkg.ReturnValue)
 }
 
